@@ -215,7 +215,41 @@ def expand(chunk, repo):
         raise ValueError(kind)
 
 
-def plan(alpha_name, n, rnd, tpl, seed, repo, files=True, nchunks=64):
+def nesting_programs():
+    """Syntactic nesting up to 100 levels (the bound of C02): brackets, indentation, prefix operators, f-strings."""
+    out = []
+    for n in (1, 7, 30, 60, 100):
+        for o, c in (('(', ')'), ('[', ']'), ('{', '}')):
+            out.append(o * n + 'a' + c * n + '\n')
+            out.append(o * n + 'a')                      # never closed
+            out.append('a' + c * n)                      # never opened
+            out.append((o + 'a,') * n + c * (n // 2))
+        out.append('not ' * n + 'a\n')
+        out.append('-' * n + 'a')
+        out.append('~+' * (n // 2) + '1')
+        out.append('await ' * n + 'a')
+        out.append('lambda: ' * n + '0')
+        out.append('a(' * n + ')' * n)
+        out.append('a if ' * n + 'b' + ' else c' * n)
+        out.append(''.join(' ' * i + 'if a:\n' for i in range(n)) + ' ' * n + 'pass\n')
+        out.append(''.join(' ' * i + 'def f():\n' for i in range(n)) + ' ' * n + 'return\n' + 'x\n')
+        out.append(''.join(' ' * i + 'class C:\n' for i in range(n)))          # bodies missing
+        out.append(''.join(' ' * (n - i) + 'a\n' for i in range(n)))           # staircase of dedents
+        out.append(''.join(' ' * i + 'try:\n' for i in range(n)) + ''.join(' ' * (n - i) + 'except:\n' for i in range(n)))
+        out.append('x = ' * n + '1')
+        out.append('a.' * n + 'b')
+        out.append('[a for a in ' * min(n, 40) + 'b' + ']' * min(n, 40))
+    for n in (1, 2, 3, 5):
+        q = ['"', "'", '"""', "'''"]
+        s = 'a'
+        for i in range(n):
+            s = 'f' + q[i % 4] + '{' + s + '}' + q[i % 4]
+        out.append(s)
+        out.append(s[:len(s) // 2])
+    return out
+
+
+def plan(alpha_name, n, rnd, tpl, seed, repo, files=True, nchunks=64, extra=''):
     """List of chunks covering the scope."""
     chunks = []
     if alpha_name:
@@ -228,6 +262,10 @@ def plan(alpha_name, n, rnd, tpl, seed, repo, files=True, nchunks=64):
         chunks.append(('rnd', seed * 1000003 + i, min(per, rnd - i), 14))
     for i in range(0, tpl, per):
         chunks.append(('tpl', seed * 7919 + i + 17, min(per, tpl - i)))
+    if extra == 'nesting':
+        np_ = nesting_programs()
+        for i in range(0, len(np_), 8):
+            chunks.append(('list', np_[i:i + 8]))
     if files:
         fs = corpus_files(repo)
         for i in range(0, len(fs), 4):
